@@ -262,28 +262,68 @@ def simple_compare(chk, repo, d):
     tsym = E + "SimpleComparison.target"
     t = repo.func(tsym)
     chk.analysed(tsym)
-    imms = [c for c in calls_in(t) if dotted(c.func) == "Instruction"
-            and "self.right.value" in unparse(c)]
-    regs = [c for c in calls_in(t) if dotted(c.func) == "Instruction"
-            and "self.src" in unparse(c)]
-    need(len(imms) == 1 and len(regs) == 1,
-         f"{tsym}: immediate/register jump forms not found")
-    ifacts = {(unparse(e), tr) for e, tr in path_facts(stmt_of(imms[0]))}
-    rfacts = {(unparse(e), tr) for e, tr in path_facts(stmt_of(regs[0]))}
-    ok = (ptxt, not ptruth) in ifacts and (ptxt, ptruth) in rfacts
-    chk.ob("R03.1", tsym, "immediate form iff compare() did not load the "
-           "right operand", ok, t,
-           f"compare() loads a register when `{ptxt}` is {ptruth}; target() "
-           f"uses the immediate under {sorted(ifacts)} and the register "
-           f"under {sorted(rfacts)}: where the two differ the jump compares "
-           f"with a stale register or a truncated immediate")
-    regform = find("Instruction(self.opcode + Opcode.REG, self.dst, self.src,"
-                   " $off, 0)", t)
-    immform = find("Instruction(self.opcode, self.dst, 0, $off, "
-                   "int(self.right.value))", t)
-    chk.ob("R03.1", tsym, "register form: jump|X dst, src; immediate form: "
-           "jump dst, imm", len(regform) == 1 and len(immform) == 1, t,
-           "operands of the jump are the left value and the right value")
+    # target(), by abstract execution: which instruction is put into the
+    # placeholder for an unconditional jump, a right operand that compare()
+    # left as an immediate, and one it loaded into a register
+    ok = ptxt == "self.right.small_constant" and ptruth is False
+    chk.ob("R03.1", sym, "compare() loads the right operand into a register "
+           "iff it is not a small constant", ok, loads[0],
+           f"loaded when `{ptxt}` is {ptruth}")
+    sc = repo.cls(E + "SimpleComparison")
+    ops = d.ev.enum_members(repo.cls(E + "Opcode"))
+    bad = []
+    rows = 0
+    for opn in ("JMP", "JEQ", "JSGT", "JLE"):
+        for small in (True, False):
+            for origin, total in ((0, 1), (2, 9), (5, 6)):
+                for retarget in (False, True):
+                    rows += 1
+                    op = ops[opn]
+                    opcodes = [("old", i) for i in range(total)]
+                    if not retarget:
+                        opcodes[origin] = None
+                    eb = Obj(None, {"opcodes": opcodes,
+                                    "owners": {1, 2, 3}})
+                    me = Obj(sc, {"ebpf": eb, "opcode": op, "dst": 3,
+                                  "src": 5, "origin": origin,
+                                  "owners": {2, 3, 4},
+                                  "right": Obj(None, {
+                                      "small_constant": small,
+                                      "value": 77})})
+                    tag = (f"{opn}, right operand "
+                           f"{'immediate' if small else 'in a register'}, "
+                           f"placeholder {origin} of {total}")
+                    try:
+                        Evaluator(repo, t._module, sc).call_function(
+                            t, [me], {"retarget": retarget}, cls=sc)
+                    except (Unknown, Raised) as e:
+                        raise AnalysisError(f"{tsym}: cannot be evaluated "
+                                            f"({tag}): {e}")
+                    got = eb.fields["opcodes"][origin]
+                    off = total - origin - 1
+                    if opn == "JMP":
+                        want = (op, 0, 0, off, 0)
+                    elif small:
+                        want = (op, 3, 0, off, 77)
+                    else:
+                        try:
+                            want = (d.ev.binop(ast.Add, op, ops["REG"]), 3,
+                                    5, off, 0)
+                        except (Unknown, Raised) as e:
+                            raise AnalysisError(f"{tsym}: {e}")
+                    rest = [x for i, x in enumerate(eb.fields["opcodes"])
+                            if i != origin]
+                    if not isinstance(got, tuple) or tuple(got) != want:
+                        bad.append(f"{tag}: placeholder becomes {got!r}, "
+                                   f"expected {want!r}")
+                    elif rest != [("old", i) for i in range(total)
+                                  if i != origin]:
+                        bad.append(f"{tag}: other instructions change")
+    chk.ob("R03.1", tsym, f"register form: jump|X dst, src; immediate form: "
+           f"jump dst, imm; distance from the placeholder to the end of the "
+           f"program ({rows} cases by abstract execution)", not bad, t,
+           "; ".join(bad[:3]) or "immediate form iff compare() did not load "
+           "the right operand")
 
 
 def bitfields(chk, repo, d):
